@@ -68,55 +68,67 @@ theorem groupByKey_eq_nil (ps : List Param) : groupByKey ps = [] ↔ ps = [] := 
 
 /-! ## one function call as a condition of the scan -/
 
-theorem toCond_spec (S : Sem δ) (hg : ∀ n, S.guard n = true) (f : Func) (c : Cond (Option Group))
-    (h : toCond f = some c) : condHolds (evGroup S) c = holdsF S f ∧ f.params ≠ [] := by
+theorem any_groupSets (S : Sem δ) (pv : Bool) (n : String) (g : String × List String) :
+    (groupSets pv n g).any (evGroup S) = g.2.any fun v => S.atom n ⟨g.1, v⟩ := by
+  unfold groupSets
+  cases pv
+  · simp [evGroup]
+  · simp only [if_true, List.any_map]
+    congr 1
+    funext v
+    simp [evGroup]
+
+theorem toCond_spec (S : Sem δ) (hg : ∀ n, S.guard n = true) (pv : String → Bool) (f : Func)
+    (c : Cond (Option Group)) (h : toCond pv f = some c) :
+    condHolds (evGroup S) c = holdsF S f ∧ f.params ≠ [] := by
   unfold toCond at h
-  cases hgk : groupByKey f.params with
-  | nil => simp [hgk] at h
-  | cons g gs =>
-    simp only [hgk, Option.some.injEq] at h
+  cases hL : (groupByKey f.params).flatMap (groupSets (pv f.name) f.name) with
+  | nil => simp [hL] at h
+  | cons a as =>
+    simp only [hL, Option.some.injEq] at h
     subst h
     have hne : f.params ≠ [] := by
       intro hp
-      have := (groupByKey_eq_nil f.params).mpr hp
-      rw [hgk] at this
-      exact absurd this (by simp)
+      rw [hp] at hL
+      simp [groupByKey] at hL
     refine ⟨?_, hne⟩
     have hany := groupsAny_groupByKey (S.atom f.name) f.params
-    rw [hgk] at hany
     have hfe : f.params.isEmpty = false := by
       cases hp : f.params with
       | nil => exact absurd hp hne
       | cons _ _ => rfl
-    simp only [condHolds, Cond.alts, holdsF, hg, Bool.true_and, hfe, Bool.false_eq_true, if_false, ← hany]
-    congr 1
-    simp only [groupsAny, List.any_cons, List.any_map, evGroup]
-    rfl
+    have hL' : (a :: as).any (evGroup S) = f.params.any (S.atom f.name) := by
+      rw [← hL, List.any_flatMap, ← hany]
+      simp only [groupsAny]
+      congr 1
+      funext g
+      exact any_groupSets S (pv f.name) f.name g
+    simp only [condHolds, Cond.alts, holdsF, hg, Bool.true_and, hfe, Bool.false_eq_true, if_false, hL']
 
-theorem toConds_spec (S : Sem δ) (hg : ∀ n, S.guard n = true) :
-    ∀ (fs : List Func) (cs : List (Cond (Option Group))), toConds fs = some cs →
+theorem toConds_spec (S : Sem δ) (hg : ∀ n, S.guard n = true) (pv : String → Bool) :
+    ∀ (fs : List Func) (cs : List (Cond (Option Group))), toConds pv fs = some cs →
       cs.all (condHolds (evGroup S)) = fs.all (holdsF S) ∧ cs.length = fs.length := by
   intro fs
   induction fs with
   | nil => intro cs h; simp only [toConds, Option.some.injEq] at h; subst h; exact ⟨rfl, rfl⟩
   | cons f fs ih =>
     intro cs h
-    cases h1 : toCond f with
+    cases h1 : toCond pv f with
     | none => simp [toConds, h1] at h
     | some c =>
-      cases h2 : toConds fs with
+      cases h2 : toConds pv fs with
       | none => simp [toConds, h1, h2] at h
       | some cs' =>
         simp only [toConds, h1, h2, Option.some.injEq] at h
         subst h
         have := ih cs' h2
-        exact ⟨by simp only [List.all_cons, (toCond_spec S hg f c h1).1, this.1],
+        exact ⟨by simp only [List.all_cons, (toCond_spec S hg pv f c h1).1, this.1],
           by simp only [List.length_cons, this.2]⟩
 
 /-! ## the whole program -/
 
 theorem scan_lowerProg (S : Sem δ) (hg : ∀ n, S.guard n = true) (fb : δ) :
-    ∀ (p : Prog) (es : List (Entry (Option Group) δ)), lowerProg S.parseOut p = some es → neP p = true →
+    ∀ (p : Prog) (es : List (Entry (Option Group) δ)), lowerProg S.perValue S.parseOut p = some es → neP p = true →
       ∀ must, scanAux (evGroup S) (es ++ [⟨none, false, .final fb⟩]) false false must =
         some (firstMatchAst S p fb must) := by
   intro p
@@ -129,19 +141,19 @@ theorem scan_lowerProg (S : Sem δ) (hg : ∀ n, S.guard n = true) (fb : δ) :
   | cons r rs ih =>
     intro es h hne must
     simp only [neP, List.all_cons, Bool.and_eq_true] at hne
-    cases h1 : lowerRuleAst S.parseOut r with
+    cases h1 : lowerRuleAst S.perValue S.parseOut r with
     | none => simp [lowerProg, h1] at h
     | some a =>
-      cases h2 : lowerProg S.parseOut rs with
+      cases h2 : lowerProg S.perValue S.parseOut rs with
       | none => simp [lowerProg, h1, h2] at h
       | some b =>
         simp only [lowerProg, h1, h2, Option.some.injEq] at h
         subst h
         unfold lowerRuleAst at h1
-        cases h3 : toConds r.funcs with
+        cases h3 : toConds S.perValue r.funcs with
         | none => simp [h3] at h1
         | some cs =>
-          have hspec := toConds_spec S hg r.funcs cs h3
+          have hspec := toConds_spec S hg S.perValue r.funcs cs h3
           cases cs with
           | nil =>
             have : r.funcs.length = 0 := by simpa using hspec.2.symm
@@ -168,7 +180,7 @@ theorem compiledDecision_eq (S : Sem δ) (hg : ∀ n, S.guard n = true) (p : Pro
     (hne : neP p = true) (d : δ × Bool) (h : compiledDecision S p fb must = some d) :
     d = firstMatchAst S p fb must := by
   unfold compiledDecision at h
-  cases hl : lowerProg S.parseOut p with
+  cases hl : lowerProg S.perValue S.parseOut p with
   | none => simp [hl] at h
   | some es =>
     simp only [hl] at h
@@ -221,5 +233,30 @@ theorem neP_mergeSortOpt (p : Prog) (h : neP p = true) : neP (mergeSortOpt p) = 
     exact neP_mergeLoop rs r h'.1 h'.2
 
 theorem neP_dedupOpt (p : Prog) : neP (dedupOpt p) = neP p := neP_map _ neR_dedupRule p
+
+/-! ## the compiled selector matcher -/
+
+theorem selPredicate_eq (S : Sem δ) (f : Func) : selPredicate S f = holdsF S f := by
+  unfold selPredicate holdsF
+  cases hp : f.params with
+  | nil => simp [groupByKey]
+  | cons p ps =>
+    have hany := groupsAny_groupByKey (S.atom f.name) (p :: ps)
+    simp only [List.isEmpty_cons, Bool.false_eq_true, if_false, List.nil_append, List.any_map]
+    congr 2
+
+theorem selCompiled_eq (S : Sem δ) : ∀ (p : Prog) (fb : δ) (must : Bool),
+    selCompiled S p fb must = firstMatchAst S p fb must := by
+  intro p
+  induction p with
+  | nil => intro fb must; rfl
+  | cons r rs ih =>
+    intro fb must
+    have hr : r.funcs.all (selPredicate S) = holdsR S r := by
+      unfold holdsR
+      congr 1
+      funext f
+      exact selPredicate_eq S f
+    simp only [selCompiled, firstMatchAst, hr, ih]
 
 end DaeVerif.C04
